@@ -90,3 +90,12 @@ MUTANTS += [
                                           "        if not device_path:\n            raise exceptions.DevicePathInvalidError(\"Cannot pull from an empty device path\")\n\n        opener = _open_bytesio if isinstance(local_path, BytesIO) else open\n        with opener(local_path, 'wb') as stream:\n            if not self.available:\n                raise exceptions.AdbConnectionError(\"not connected\")\n")]),
     ("c13-streaming-guard-missing-async", "C13", [(A, "        if not self.available:\n            raise exceptions.AdbConnectionError(\"ADB command not sent because a connection to the device has not been established.  (Did you call `AdbDeviceAsync.connect()`?)\")\n\n        async for line in self._streaming_service(b'shell'", "        async for line in self._streaming_service(b'shell'")]),
 ]
+MUTANTS += [
+    ("c19-wildcard-returns-empty-queue", "C19", [(H, "return next(((arg0, key1) for key1, val1 in self._dict.items() for key0, val0 in val1.items() if key0 == arg0 and not val0.empty()), None)", "return next(((arg0, key1) for key1, val1 in self._dict.items() for key0, val0 in val1.items() if key0 == arg0), None)")]),
+    ("c19-clear-not-deleting", "C19", [(H, "        if arg1 in self._dict and arg0 in self._dict[arg1]:\n            del self._dict[arg1][arg0]", "        if arg1 in self._dict and arg0 in self._dict[arg1] and arg0 != arg1:\n            del self._dict[arg1][arg0]")]),
+    ("c19-clse-get-not-clearing", "C19", [(H, "        if cmd == constants.CLSE:\n            self.clear(arg0, arg1)\n\n        return cmd, arg0, arg1, data", "        return cmd, arg0, arg1, data")]),
+    ("c19-len-counts-empty", "C19", [(H, "return sum(not val0.empty() for val1 in self._dict.values() for val0 in val1.values())", "return sum(1 for val1 in self._dict.values() for val0 in val1.values())")]),
+    ("c19-zero-fallback-order-missing", "C19", [(H, "for arg0_, arg1_ in ((arg0, arg1), (arg0, 0), (0, arg1), (0, 0)):", "for arg0_, arg1_ in ((arg0, arg1), (arg0, 0), (0, 0)):")]),
+    ("c19-lifo", "C19", [(H, "        self._dict[arg1][arg0].put_nowait((cmd, data))", "        q = self._dict[arg1][arg0]\n        items = [(cmd, data)]\n        while not q.empty():\n            items.append(q.get_nowait())\n        for it in items:\n            q.put_nowait(it)")]),
+    ("c19-find-ignores-arg0-when-single", "C19", [(H, "        if arg0 in self._dict[arg1] and not self._dict[arg1][arg0].empty():\n            return (arg0, arg1)\n\n        return None", "        if arg0 in self._dict[arg1] and not self._dict[arg1][arg0].empty():\n            return (arg0, arg1)\n\n        if len(self._dict[arg1]) == 1:\n            return next(((key0, arg1) for key0, val0 in self._dict[arg1].items() if not val0.empty()), None)\n        return None")]),
+]
